@@ -96,7 +96,7 @@ def plan(tier, seed):
     specs = [{"kind": "labelled", "spellings": 3 if tier == "quick" else 8}, {"kind": "syntactic"}]
     n = 10 if tier == "quick" else 44
     for i in range(n):
-        specs.append({"kind": "random", "n": 4000 if tier == "quick" else 20000, "depth": (2 + i % 3) if tier == "quick" else (3 + i % 4)})
+        specs.append({"kind": "random", "n": 4000 if tier == "quick" else 40000, "depth": (2 + i % 3) if tier == "quick" else (3 + i % 4)})
     return specs
 
 
